@@ -60,7 +60,7 @@ _PARSER_TECH = "TLA+ spec of the parser (ClapDef/Parser/Props.tla) model-checked
 _PARSER_COMMON = ("Parser.tla transcribes parser.rs / arg_matcher.rs / validator.rs / the parse entry of command.rs branch by branch (one Step per argv "
                   "token, react, pending values, flag-subcommand resume, env/default phases, validator, global propagation), with every unwrap/"
                   "expect/unreachable/debug_assert on the path an explicit panic-site outcome; TLC explores every argv up to the bound over each "
-                  "definition's alphabet for five definition families (also with ignore_errors) and checks the declarative predicate as an invariant "
+                  "definition's alphabet for six definition families (core, act, src, tree, rel, relx; also with ignore_errors) and checks the declarative predicate as an invariant "
                   "on the model; every state is replayed on the real parser (zero divergences on the unchanged tree), divergent observations and "
                   "spec-level counterexamples are judged by Trace_Parse.tla on the implementation's own observation, and random long argv recorded "
                   "from the real parser are validated the same way. ")
